@@ -221,12 +221,10 @@ def _find_padding(atom_path):
     meta, ilst = atom_path[-2:]
     assert meta.name == b"meta" and ilst.name == b"ilst"
     index = meta.children.index(ilst)
-    try:
+    if index > 0:
         prev = meta.children[index - 1]
         if prev.name == b"free":
             return prev
-    except IndexError:
-        pass
 
     try:
         next_ = meta.children[index + 1]
